@@ -249,11 +249,12 @@ func faultVariants(rng *rand.Rand, m *ref.MCMap) []struct {
 			var choices []string
 			switch kind {
 			case "cidchar", "cidrange", "notdefchar", "notdefrange":
-				choices = []string{"str", "name", "real", "arr", "bool", "dict"}
+				choices = []string{"str", "name", "real", "arr", "bool", "dict", "proc", "emptyproc"}
 			case "bfchar":
-				choices = []string{"int", "real", "arr", "bool", "dict"}
+				choices = []string{"int", "real", "arr", "bool", "dict", "proc", "emptyproc"}
 			case "bfrange":
-				choices = []string{"int", "name", "real", "bool", "dict"}
+				// a procedure body is an array to `type`, `get` and `length`, but not a destination
+				choices = []string{"int", "name", "real", "bool", "dict", "proc", "emptyproc", "proc"}
 			}
 			bad.Dst = ref.MDst{Kind: choices[rng.IntN(len(choices))], S: []byte("ab"), Arr: [][]byte{{1}}, I: 5}
 			pos := rng.IntN(len(b.Entries) + 1)
